@@ -1052,6 +1052,103 @@ fn all_replica_scenarios() -> Vec<String> {
     out
 }
 
+// ------------------------------------------------------------------ family: traffic (C14: what ONE handler step hands to the links of other nodes)
+const TRAFFIC_CLIENT: [&str; 7] = ["set k v", "set-safe k 1 v", "set-safe k 9 v", "increment cnt 1", "remove k", "get k", "set $$secret x"];
+const TRAFFIC_PEER: [&str; 7] = ["replicate d k -1 v", "replicate d k 1 v", "replicate-increment d cnt 1", "replicate-remove d k", "rp 77 replicate d k -1 v", "rp 77 replicate-remove d k", "ack 77 s1:1"];
+fn scenario_traffic(sc: &str) -> Result<Violations, String> {
+    // sc = "<role S|P|U>|<strategy>|<arbiter registered 0|1>|<origin c|p>|<index>":  this node (me:1) has role S / P / U; its member table names me:1, p:1 (marked Primary, unless
+    // this node is the primary) and s1:1, s2:1 (marked Secoundary), every other member with a readable link.  Database d (strategy as given) holds k at version 3 and cnt.
+    // origin c: a client session (use-db d tok) sends TRAFFIC_CLIENT[index]; origin p: an authenticated peer link delivers TRAFFIC_PEER[index].  Whatever the command put on this
+    // node's replication channel is then handled by ONE run of the real replication thread.  Counted: the lines on every member link and on the session's own channel.
+    use nundb::disk_ops::{snapshot_keys, Oplog};
+    use nundb::replication_ops::start_replication_thread;
+    let p: Vec<&str> = sc.split('|').collect();
+    if p.len() != 5 { return Err("bad scenario".into()); }
+    let idx: usize = p[4].parse().map_err(|_| "bad index")?;
+    let dir = std::env::var("NUN_DBS_DIR").map_err(|_| "NUN_DBS_DIR not set")?;
+    Oplog::clean_op_log_metadata_files();
+    let _ = std::fs::remove_file(format!("{}/keys-nun.keys", dir));
+    let (s1, r1): (Sender<String>, Receiver<String>) = channel(1000);
+    let (s2, mut rrx): (Sender<String>, Receiver<String>) = channel(1000);
+    std::mem::forget(r1);
+    let dbs = Arc::new(Databases::new("u".into(), "p".into(), "me:1".into(), "me:1".into(), s1, s2, HashMap::new(), 1, true));
+    dbs.node_state.swap(ClusterRole::Primary as usize, std::sync::atomic::Ordering::Relaxed);
+    let w = World { dbs: dbs.clone() };
+    let (mut admin, mut arx) = Client::new_empty_and_receiver();
+    for c in ["auth u p".to_string(), format!("create-db d tok {}", p[1]), "use-db d tok".to_string(), "set k a".into(), "set k b".into(), "set k c".into(), "set k d".into(), "set cnt 3".into()] { run_cmd(&w, &mut admin, &mut arx, &c); }
+    let (mut arbiter, mut arbrx) = Client::new_empty_and_receiver();
+    if p[2] == "1" { run_cmd(&w, &mut arbiter, &mut arbrx, "use-db d tok"); run_cmd(&w, &mut arbiter, &mut arbrx, "arbiter"); }
+    snapshot_keys(&dbs);
+    drain(&mut rrx);
+    let role = match p[0] { "S" => ClusterRole::Secoundary, "P" => ClusterRole::Primary, _ => ClusterRole::StartingUp };
+    let (l1, mut m1): (Sender<String>, Receiver<String>) = channel(1000);
+    let (l2, mut m2): (Sender<String>, Receiver<String>) = channel(1000);
+    let (lp, mut mp): (Sender<String>, Receiver<String>) = channel(1000);
+    if p[0] != "P" { dbs.add_cluster_member(ClusterMember { name: "p:1".into(), role: ClusterRole::Primary, sender: Some(lp) }); }
+    dbs.add_cluster_member(ClusterMember { name: "me:1".into(), role: if p[0] == "P" { ClusterRole::Primary } else { ClusterRole::Secoundary }, sender: None });
+    dbs.add_cluster_member(ClusterMember { name: "s1:1".into(), role: ClusterRole::Secoundary, sender: Some(l1) });
+    dbs.add_cluster_member(ClusterMember { name: "s2:1".into(), role: ClusterRole::Secoundary, sender: Some(l2) });
+    dbs.node_state.swap(role as usize, std::sync::atomic::Ordering::Relaxed);
+    let mut v: Violations = vec![];
+    let (mut c, mut crx) = Client::new_empty_and_receiver();
+    let cmd = if p[3] == "c" {
+        if idx >= TRAFFIC_CLIENT.len() { return Err("bad index".into()); }
+        run_cmd(&w, &mut c, &mut crx, "use-db d tok"); TRAFFIC_CLIENT[idx]
+    } else {
+        if idx >= TRAFFIC_PEER.len() { return Err("bad index".into()); }
+        c.auth.swap(true, std::sync::atomic::Ordering::Relaxed); TRAFFIC_PEER[idx]
+    };
+    if cmd.starts_with("ack") { dbs.register_pending_opp(77, "replicate d k -1 v".into(), &"s1:1".to_string()); dbs.register_pending_opp(77, "replicate d k -1 v".into(), &"s2:1".to_string()); }
+    drain(&mut rrx); drain(&mut m1); drain(&mut m2); drain(&mut mp);
+    let out = catch_unwind(AssertUnwindSafe(|| run_cmd(&w, &mut c, &mut crx, cmd)));
+    let (_r, back) = match out { Ok(x) => x, Err(_) => { v.push("C10.safety".into()); return Ok(v); } };
+    // ---- the command itself: at most one line on the replication channel, at most one forward to the primary (none when a peer delivered the command)
+    let queued = drain(&mut rrx);
+    let fwd = drain(&mut mp);
+    for l in ["C14.one-line-per-command", "C05.one-line-per-command"] { chk(&mut v, l, queued.len() <= 1); }
+    chk(&mut v, "C14.at-most-one-forward-per-write", fwd.len() <= 1);
+    chk(&mut v, "C14.primary-forwards-nothing", p[0] != "P" || fwd.is_empty());
+    if p[3] == "p" { chk(&mut v, "C14.peer-messages-are-not-forwarded", fwd.is_empty()); }
+    // a handler never hands anything to the link of a secondary itself: copies leave through the replication thread only
+    let direct = drain(&mut m1).len() + drain(&mut m2).len();
+    chk(&mut v, "C14.handlers-hand-copies-to-the-replication-thread-only", direct == 0);
+    // ---- the session's own channel: a wrapped copy is acknowledged exactly once, an acknowledgement or a relayed write is answered with nothing of the kind
+    let acks = back.iter().filter(|l| l.starts_with("ack ")).count();
+    if cmd.starts_with("rp ") {
+        chk(&mut v, "C14.copy-is-acknowledged-once-and-applied-once", acks == 1 && back.iter().any(|l| l.starts_with("ack 77 me:1")));
+    } else { chk(&mut v, "C14.only-copies-are-acknowledged", acks == 0); }
+    if cmd.starts_with("ack") { chk(&mut v, "C14.ack-ends-the-exchange", queued.is_empty() && fwd.is_empty()); }
+    // ---- the replication thread takes what was queued: a secondary hands nothing to anybody; the primary one copy per secondary; a starting node one per other member
+    let ok = catch_unwind(AssertUnwindSafe(|| {
+        let (mut tx, rx): (Sender<String>, Receiver<String>) = channel(100);
+        for q in &queued { tx.try_send(q.clone()).unwrap(); }
+        tx.try_send("exit".to_string()).unwrap();
+        futures::executor::block_on(start_replication_thread(rx, dbs.clone()));
+    }));
+    if ok.is_err() { v.push("C10.safety".into()); return Ok(v); }
+    let (g1, g2, gp) = (drain(&mut m1).len(), drain(&mut m2).len(), drain(&mut mp).len());
+    match p[0] {
+        "S" => chk(&mut v, "C14.secondary-never-fans-out", g1 + g2 + gp == 0),
+        "P" => { chk(&mut v, "C14.one-copy-per-secondary", g1 <= queued.len() && g2 <= queued.len()); chk(&mut v, "C14.primary-fans-out-to-secondaries-only", gp == 0); }
+        _ => chk(&mut v, "C14.starting-node-copies-once-per-other-member", g1 <= queued.len() && g2 <= queued.len() && gp <= queued.len()),
+    }
+    // non-vacuity of the wiring: an accepted client write on the primary does reach both secondaries
+    if p[0] == "P" && p[3] == "c" && idx == 0 && !(g1 == 1 && g2 == 1) { return Err("links silent".into()); }
+    if p[0] == "S" && p[3] == "c" && idx == 0 && fwd.len() != 1 { return Err("primary link silent".into()); }
+    std::mem::forget(arx); std::mem::forget(arbrx);
+    Oplog::clean_op_log_metadata_files();
+    Ok(v)
+}
+fn all_traffic_scenarios() -> Vec<String> {
+    let mut out = vec![];
+    for role in ["S", "P", "U"] { for st in ["none", "newer", "arbiter"] { for arb in ["0", "1"] {
+        if arb == "1" && st != "arbiter" { continue; }
+        for i in 0..TRAFFIC_CLIENT.len() { out.push(format!("{}|{}|{}|c|{}", role, st, arb, i)); }
+        for i in 0..TRAFFIC_PEER.len() { out.push(format!("{}|{}|{}|p|{}", role, st, arb, i)); }
+    } } }
+    out
+}
+
 // ------------------------------------------------------------------ family: permchange (C09: a permission list changed while the user's session is open)
 const PC_USERS: [(&str, &str); 3] = [("usr", "use-db d usr ut"), ("nolist", "use-db d nolist nt"), ("star", "use-db d star st")];
 const PC_LISTS: [&str; 4] = ["r pub*", "w sec*|r sea", "rwix *", "i cnt"];
@@ -2033,7 +2130,8 @@ fn families() -> Vec<(&'static str, fn() -> Vec<String>, fn(&str) -> Result<Viol
          ("wsserver", all_wsserver_scenarios, scenario_wsserver),
          ("values", all_values_scenarios, scenario_values), ("forward", all_forward_scenarios, scenario_forward),
          ("resub", all_resub_scenarios, scenario_resub), ("logthread", all_logthread_scenarios, scenario_logthread),
-         ("logroll", all_logroll_scenarios, scenario_logroll), ("linktag", all_linktag_scenarios, scenario_linktag), ("replica", all_replica_scenarios, scenario_replica)]
+         ("logroll", all_logroll_scenarios, scenario_logroll), ("linktag", all_linktag_scenarios, scenario_linktag), ("replica", all_replica_scenarios, scenario_replica),
+         ("traffic", all_traffic_scenarios, scenario_traffic)]
 }
 /// the properties whose clause labels a family can report (every family reports C10.safety when a call panics, so C10 runs them all)
 fn family_props(fam: &str) -> &'static [&'static str] {
@@ -2041,7 +2139,7 @@ fn family_props(fam: &str) -> &'static [&'static str] {
         "store" => &["C01", "C02", "C03", "C08"], "strategy" => &["C02", "C13", "C19"], "pending" => &["C15"], "ids" => &["C16"], "keymap" => &["C16"],
         "oplog" => &["C05", "C12"], "session" => &["C01", "C08", "C09"], "permchange" => &["C09"], "arbiter" => &["C06", "C13"], "watch" => &["C03"], "lines" => &[], "flood" => &[],
         "connections" => &["C17"], "snapshot" => &["C01", "C06", "C19"], "resync" => &["C05"], "election" => &["C07"], "http" => &["C20"], "httpserver" => &["C08", "C09", "C17", "C20"], "tcpserver" => &["C03", "C17"], "race" => &["C01", "C02"], "oplogdisk" => &["C16"], "wsserver" => &["C03", "C17", "C20"],
-        "values" => &["C01", "C03"], "forward" => &["C08", "C09"], "resub" => &["C03"], "logthread" => &["C05", "C12", "C15"], "logroll" => &["C12"], "linktag" => &["C07"], "replica" => &["C02", "C05", "C19"],
+        "values" => &["C01", "C03"], "forward" => &["C08", "C09"], "resub" => &["C03"], "logthread" => &["C05", "C12", "C15"], "logroll" => &["C12"], "linktag" => &["C07"], "replica" => &["C02", "C05", "C19"], "traffic" => &["C14", "C05"],
         _ => &[],
     }
 }
